@@ -2,6 +2,7 @@ package c12
 
 import (
 	"context"
+	"fmt"
 	"testing"
 
 	"google.golang.org/grpc"
@@ -32,6 +33,16 @@ func (s *oneShotStream) SetHeader(metadata.MD) error  { return nil }
 func (s *oneShotStream) SendHeader(metadata.MD) error { return nil }
 func (s *oneShotStream) SetTrailer(metadata.MD)       {}
 func (s *oneShotStream) SendMsg(any) error            { return nil }
+
+// multiShotStream delivers the same request message on every RecvMsg.
+type multiShotStream struct{ oneShotStream }
+
+func (s *multiShotStream) RecvMsg(m any) error {
+	if pm, ok := m.(proto.Message); ok {
+		proto.Merge(pm, s.msg)
+	}
+	return nil
+}
 
 // TestDefaultName: the interceptors fill in only empty names and modify nothing else.
 func TestDefaultName(t *testing.T) {
@@ -112,6 +123,24 @@ func TestDefaultName(t *testing.T) {
 		})
 		if err != nil || !proto.Equal(got, want) {
 			t.Fatalf("stream interceptor: handler received {%v}, want {%v} (request {%v}, default %q)", got, want, req, def)
+		}
+		// a client-streaming or bidi call: every request message of the stream gets the default, not only the first
+		msgs := rapid.IntRange(2, 4).Draw(t, "streamMessages")
+		multi := &multiShotStream{oneShotStream{msg: req}}
+		err = name.IfAbsentStreamInterceptor(def)(nil, multi, &grpc.StreamServerInfo{IsClientStream: true}, func(srv any, ss grpc.ServerStream) error {
+			for i := 0; i < msgs; i++ {
+				m := req.ProtoReflect().New().Interface()
+				if err := ss.RecvMsg(m); err != nil {
+					return err
+				}
+				if !proto.Equal(m, want) {
+					return fmt.Errorf("request message %d of the stream arrived as {%v}, want {%v}", i+1, m, want)
+				}
+			}
+			return nil
+		})
+		if err != nil {
+			t.Fatalf("stream interceptor on a stream of %d request messages: %v (request {%v}, default %q)", msgs, err, req, def)
 		}
 		nt := ""
 		if hasName {
